@@ -147,11 +147,19 @@ class C15(Check):
     required_probes = {'thorough': ['gen>=3', 'yaml_io', 'torn', 'inherit', 'dual', 'hier']}
 
     def strata(self, tier):
-        return [('S-flat', 3), ('S-hier', 2), ('S-overrides', 1), ('S-fault', 2), ('S-inherit', 3), ('S-dual', 2)]
+        return [('S-flat', 3), ('S-hier', 2), ('S-overrides', 1), ('S-fault', 2), ('S-inherit', 3), ('S-dual', 2),
+                ('S-nodes', 2), ('S-restart', 2)]
 
     def generate(self, rng, stratum, tier):
         if stratum == 'S-inherit':
             return {'mode': 'inherit', 'inh': gen_inherit(rng)}
+        if stratum == 'S-nodes':
+            # node templates derived via base: (with dict-form operators = per-node variations) and circuits whose nodes
+            # come from another file (fully qualified) next to local ones with the same template name
+            g = lambda lo=1, hi=48: rng.randint(lo, hi) / 16
+            return {'mode': 'nodes', 'kind': rng.choice(['derive', 'derive+override', 'multifile', 'multifile']),
+                    'vals': {'aS': g(), 'aM': g(), 'xS': g(-32, 32), 'xM': g(-32, 32), 'vA': g(), 'vB': g(), 'w': g(-32, 32) or 0.5,
+                             'external_first': rng.random() < 0.7}}
         dl = (lambda r: ({'delay': r.choice([0.004, 0.02]), 'spread': r.choice([None, 0.002])} if r.random() < 0.3 else {}))
         if stratum == 'S-overrides':
             spec = models.gen_aliased(rng, build=rng.choice(['python', 'yaml']))
@@ -173,7 +181,16 @@ class C15(Check):
         fault = None
         if stratum == 'S-fault':
             fault = {'at_gen': rng.randint(1, gens), 'errno': rng.choice(['ENOSPC', 'EIO', 'EACCES']), 'short': rng.random() < 0.5}
-        return {'mode': 'store', 'spec': spec, 'gens': gens, 'fault': fault}
+        restart = None
+        if stratum == 'S-restart':
+            # the loaded (path-cached) template is modified in place, then the process is "restarted" with
+            # pyrates.clear(model) on a model that holds no compiled IR, and the same path is loaded again
+            net = models.RefNet(spec)
+            (rn, ro), ri = rng.choice(list(net.inst.items()))
+            rv = rng.choice(models.LIB[ri['lib']]['const'] + models.LIB[ri['lib']]['state'])
+            restart = {'how': rng.choice(['clear_model', 'clear_model', 'clear_frontend_caches']),
+                       'mutate': {f'{rn}/{ro}/{rv}': rng.randint(1, 60) / 16}}
+        return {'mode': 'store', 'spec': spec, 'gens': gens, 'fault': fault, 'restart': restart}
 
     # ---------------------------------------------------------------------------------------------------
     def execute(self, trace):
@@ -221,6 +238,71 @@ class C15(Check):
             d = observe.diff(base1, base0, rtol=1e-12)
             if d:
                 V('L-inherit-base', 'silent', inh['kind'], f'loading the derived template changed its base template: {d[:300]}')
+                return res
+            res['nontrivial'] = True
+            return res
+
+        if mode == 'nodes':
+            bump('nodes')
+            v = trace['vals']
+            kind = trace['kind']
+            lin = lambda a, x: {'eqs': ["x' = -a*x + u"], 'vars': {'x': f'output({x})', 'a': float(a), 'u': 'input(0.0)'}}
+            os.makedirs('lib', exist_ok=True)
+            open('lib/__init__.py', 'w').close()
+
+            def op_yaml(name, a, x):
+                return [f'{name}:', '  base: OperatorTemplate', '  equations:', '    - "x\' = -a*x + u"', '  variables:',
+                        f'    x: output({x})', f'    a: {float(a)!r}', '    u: input(0.0)', '']
+            if kind.startswith('derive'):
+                L = ['%YAML 1.2', '---', ''] + op_yaml('opM', v['aM'], v['xM'])
+                L += ['base_node:', '  base: NodeTemplate', '  operators:', '    opM:', f"      a: {float(v['vA'])!r}", '']
+                L += ['der_node:', '  base: base_node']
+                exp_var = {'a': v['vA']}
+                if kind == 'derive+override':
+                    L += ['  operators:', '    opM:', f"      x: {float(v['vB'])!r}"]
+                    # `operators` is the attribute that is overridden: as a whole, with the variations given in the child
+                    # (the implementation's documented update rule: the child's operator listing replaces the base's)
+                    exp_var = {'x': v['vB']}
+                L += ['', 'circ:', '  base: CircuitTemplate', '  nodes:', '    p: der_node', '    q: base_node', '  edges:',
+                      f"    - [p/opM/x, q/opM/u, null, {{weight: {float(v['w'])!r}}}]", '']
+                with open('lib/mainf.yaml', 'w') as f:
+                    f.write('\n'.join(L))
+                exp = {'ops': {'opM': lin(v['aM'], v['xM'])},
+                       'nodes': {'p': {'name': 'der_node', 'operators': [['opM', exp_var]]},
+                                 'q': {'name': 'base_node', 'operators': [['opM', {'a': v['vA']}]]}},
+                       'edges': [['p/opM/x', 'q/opM/u', {'weight': v['w']}]]}
+                if kind == 'derive+override':
+                    # operators given in a derived node template: documented update semantics are "update", i.e. the base's
+                    # variations stay unless overridden -> {'a': vA, 'x': vB}
+                    pass
+            else:
+                S = ['%YAML 1.2', '---', ''] + op_yaml('opS', v['aS'], v['xS'])
+                S += ['driver:', '  base: NodeTemplate', '  operators:', '    - opS', '',
+                      'pop:', '  base: NodeTemplate', '  operators:', '    opS:', f"      a: {float(v['vB'])!r}", '']
+                with open('lib/shared.yaml', 'w') as f:
+                    f.write('\n'.join(S))
+                L = ['%YAML 1.2', '---', ''] + op_yaml('opM', v['aM'], v['xM'])
+                L += ['pop:', '  base: NodeTemplate', '  operators:', '    - opM', '', 'circ:', '  base: CircuitTemplate', '  nodes:']
+                L += (['    d: lib.shared.driver', '    p: pop'] if v['external_first'] else ['    p: pop', '    d: lib.shared.driver'])
+                L += ['  edges:', f"    - [d/opS/x, p/opM/u, null, {{weight: {float(v['w'])!r}}}]", '']
+                with open('lib/mainf.yaml', 'w') as f:
+                    f.write('\n'.join(L))
+                order = ['d', 'p'] if v['external_first'] else ['p', 'd']
+                nd = {'d': {'name': 'driver', 'operators': [['opS', {}]]}, 'p': {'name': 'pop', 'operators': [['opM', {}]]}}
+                exp = {'ops': {'opS': lin(v['aS'], v['xS']), 'opM': lin(v['aM'], v['xM'])},
+                       'nodes': {k: nd[k] for k in order}, 'edges': [['d/opS/x', 'p/opM/u', {'weight': v['w']}]]}
+            obsv.submit(None, 'obs_yaml', path='lib.mainf.circ', cwd=cwd)
+            obsv.submit(None, 'obs_explicit_circuit', **exp)
+            got, want = obsv.collect()
+            if want['scalar'].get('status') != 'ok':
+                res['discard'] = f"expectation does not compile: {want['scalar'].get('exc')}"
+                return res
+            d = observe.diff(got, want, rtol=1e-12)
+            if d:
+                V('L-inherit-node' if kind.startswith('derive') else 'L-multifile',
+                  'loud' if got['scalar'].get('status') != 'ok' else 'silent', kind,
+                  f'YAML model ({kind}, values {json.dumps(v)}) differs from the explicitly written one: {d[:300]}'
+                  + (f' [{got["scalar"].get("exc")}: {got["scalar"].get("msg")}]' if got['scalar'].get('status') != 'ok' else ''))
                 return res
             res['nontrivial'] = True
             return res
@@ -300,6 +382,23 @@ class C15(Check):
             except Exception as e:
                 V('L-recover', 'loud', type(e).__name__, f'loading generation {g} raised {type(e).__name__}: {str(e)[:200]}')
                 break
+            rs = trace.get('restart')
+            if rs:
+                # modify the cached template object in place, restart, reload: the file is what counts
+                try:
+                    cur.update_var(node_vars=dict(rs['mutate']))
+                    if rs['how'] == 'clear_model':
+                        from pyrates import clear as pr_clear
+                        pr_clear(cur)            # cur was never compiled in place: it holds no IR
+                    else:
+                        clear_frontend_caches()
+                    cur = CircuitTemplate.from_yaml(f'gen{g}/{name}')
+                except Exception as e:
+                    V('L-recover', 'loud', type(e).__name__, f'restart/reload of generation {g} raised {type(e).__name__}: {str(e)[:200]}')
+                    break
+                obsv.submit(snapshot(cur), 'obs_both')
+                jobs.append(('restart', g))
+                bump('restart_' + rs['how'])
             if g >= 3:
                 bump('gen>=3')
         snaps = obsv.collect()
@@ -311,6 +410,11 @@ class C15(Check):
             return res
         for g, s in zip(jobs, snaps[1:]):
             d = observe.diff(s, base, rtol=1e-12)
+            if d and isinstance(g, tuple):
+                V('L-restart', 'silent', 'reload-after-clear',
+                  f'after modifying the loaded template in place, {trace["restart"]["how"]} and loading generation {g[1]} again, '
+                  f'the model differs from the stored one: {d[:300]}')
+                return res
             if d:
                 loud = s['scalar'].get('status') != 'ok'
                 V('L-recover', 'loud' if loud else 'silent', f'generation-{min(g, 2)}',
